@@ -71,3 +71,16 @@ add("C16", "exploration", "metamorphic property-based testing (proptest): same f
     "Search over fact sets and pairs of supply orders (Builder calls, binary records, text stanzas and rows); complete sorted read-API snapshots must be equal within a path and across paths that can express the facts.",
     "One name per id / one replacement per term; <=18 terms quick / 60 thorough.",
     "DESIGN.md section 4, C16")
+
+add("C13", "exploration", "property-based testing (proptest): generated ontologies and member sets vs set algebra on the reference model; in-place vs copying differential",
+    "Search over ontologies with obsolete, replaced and modifier terms and arbitrary member sets; every HpoSet operation compared with its definition on the model, in-place against copying variants.",
+    "Replacements name existing terms; <=18 terms quick / 50 thorough, <=12 members.",
+    "DESIGN.md section 4, C13")
+add("C14", "exploration", "property-based testing (proptest): generated root/leaf requests vs validity predicate (shortest chains) and reference model of the restricted facts",
+    "Search over source ontologies, roots and leaf collections incl. the error class; the retained term set is validated (every term on a shortest leaf-root chain), everything else is predicted from the restricted facts and compared through the whole read API.",
+    "Tie-breaking between equally short chains is not predicted; <=18 terms quick / 50 thorough.",
+    "DESIGN.md section 4, C14")
+add("C18", "exploration", "property-based testing (proptest): base facts + generated edit scripts vs diff computed on the facts; mirror and self/round-trip metamorphic checks",
+    "Search over pairs of ontologies that differ by 0-4 edits of 15 kinds; all Comparison / HpoTermDelta / AnnotationDelta accessors compared with the difference of the fact sets; swapped arguments, self comparison and round trip.",
+    "Replacement means the stored replacement id; <=12 terms quick / 40 thorough.",
+    "DESIGN.md section 4, C18")
